@@ -48,7 +48,7 @@ PROFILES = {
     "thorough": dict(design=[("fwd_q.cfg", True, 8, 840), ("fwd_t3n.cfg", True, 6, 840), ("fwd_t3s.cfg", True, 2, 600),
                              ("fwd_live.cfg", True, 2, 800), ("fwd_draft.cfg", True, 2, 600),
                              ("mut_nolatchmsg.cfg", False, 1, 300), ("mut_nolatchack_noclosesend.cfg", False, 1, 300),
-                             ("mut_nolatchack.cfg", True, 1, 600), ("mut_noclosesend.cfg", True, 1, 600),
+                             ("mut_nolatchack.cfg", False, 1, 600), ("mut_nolatchack_coop.cfg", True, 1, 600), ("mut_noclosesend.cfg", True, 1, 600),
                              ("mut_nocancel.cfg", True, 1, 600), ("mut_noclosesend_nocancel.cfg", True, 1, 600)],
                      gen="sim_t.cfg", keep=1),
 }
